@@ -207,15 +207,52 @@ Definition spec_usage (c : case) (L : bytes) (u : N) : bool :=
   && implb (negb (nonempty h)) (N.eqb u 5)
   && (N.eqb u 1 || N.eqb u 2 || N.eqb u 4 || N.eqb u 5).
 
+(* (4) the process table of `layercake status` (manage.DescribeUsers): one row per process that
+   uses the layer; "running in chroot" (1) for a process whose root lies in the layer, else
+   "running in layer directory" (2) for one whose working directory does, else "opened files"
+   (3); the working directory shown and the open files listed are that process's *)
+Definition t_pid (x : triple) : N := fst (fst x).
+Definition t_kind (x : triple) : N := snd (fst x).
+Definition has (l : list triple) (q k : N) : bool :=
+  existsb (fun x => N.eqb (t_pid x) q && N.eqb (t_kind x) k) l.
+Definition tails (l : list triple) (q k : N) : list bytes :=
+  map snd (filter (fun x => N.eqb (t_pid x) q && N.eqb (t_kind x) k) l).
+Definition bsubset (a b : list bytes) : bool := forallb (fun x => existsb (beq x) b) a.
+Definition spec_row (l h : list triple) (r : drow) : bool :=
+  let q := r_pid r in
+  existsb (fun x => N.eqb (t_pid x) q) h
+  && implb (N.eqb (r_mode r) 1) (has h q K_root) && implb (has l q K_root) (N.eqb (r_mode r) 1)
+  && implb (N.eqb (r_mode r) 2) (has h q K_cwd && negb (has l q K_root))
+  && implb (has l q K_cwd && negb (has h q K_root)) (N.eqb (r_mode r) 2)
+  && implb (N.eqb (r_mode r) 3) (negb (has l q K_root) && negb (has l q K_cwd))
+  && (N.eqb (r_mode r) 1 || N.eqb (r_mode r) 2 || N.eqb (r_mode r) 3)
+  && implb (N.eqb (r_mode r) 2 || has l q K_cwd || nonempty (r_cwd r)) (existsb (beq (r_cwd r)) (tails h q K_cwd))
+  && bsubset (tails l q K_open) (r_files r) && bsubset (r_files r) (tails h q K_open).
+Fixpoint nodupN (l : list N) : bool :=
+  match l with [] => true | x :: r => negb (existsb (N.eqb x) r) && nodupN r end.
+Definition spec_rows (c : case) (L : bytes) (rows : list drow) : bool :=
+  let l := lo c L in let h := hi c L in
+  forallb (spec_row l h) rows
+  && forallb (fun x => (t_pid x <? 1)%N || existsb (fun r => N.eqb (r_pid r) (t_pid x)) rows) l
+  && nodupN (map r_pid rows).
+Fixpoint spec_rows_all (c : case) (Ls : list bytes) (rows : list (list drow)) : bool :=
+  match Ls, rows with
+  | [], [] => true
+  | L :: Ls', r :: rows' => spec_rows c L r && spec_rows_all c Ls' rows'
+  | _, _ => false
+  end.
+
 Definition spec (c : case) (o : obs) : bool :=
   match o with
   | OProc SPanic _ _ => false
   | OProc SErr _ _ => negb (only_vanish c)
-  | OProc (SOk m) fl _ =>
+  | OProc (SOk m) fl rows =>
     spec_attr c m
     && match fl with Some fs => spec_flags_all c (c_layers c) fs | None => false end
-  | OStatus ok u _ =>
-    if ok then spec_usage c (nth (match c_status c with Some i => i | None => 0%nat end) (c_layers c) []) u
+    && spec_rows_all c (c_layers c) rows
+  | OStatus ok u rows =>
+    let L := nth (match c_status c with Some i => i | None => 0%nat end) (c_layers c) [] in
+    if ok then spec_usage c L u && spec_rows c L rows
     else negb (only_vanish c)
   end.
 
